@@ -10,6 +10,7 @@ import (
 	"google.golang.org/grpc/balancer"
 	"google.golang.org/grpc/connectivity"
 	"google.golang.org/grpc/internal/transport"
+	"google.golang.org/grpc/stats"
 )
 
 // VerifPickerWrapper exposes the real pickerWrapper.
@@ -66,4 +67,36 @@ func VerifSetFakeSubConnState(sc balancer.SubConn, s connectivity.State, t trans
 	ac.state = s
 	ac.transport = t
 	ac.mu.Unlock()
+}
+
+type verifPickStats struct{ delayed bool }
+
+func (h *verifPickStats) TagRPC(ctx context.Context, _ *stats.RPCTagInfo) context.Context   { return ctx }
+func (h *verifPickStats) TagConn(ctx context.Context, _ *stats.ConnTagInfo) context.Context { return ctx }
+func (h *verifPickStats) HandleConn(context.Context, stats.ConnStats)                       {}
+func (h *verifPickStats) HandleRPC(_ context.Context, s stats.RPCStats) {
+	if _, ok := s.(*stats.DelayedPickComplete); ok {
+		h.delayed = true
+	}
+}
+
+// GetTransport runs the real csAttempt.getTransport (stream.go) — the call site of pick for
+// every attempt of an RPC — on a clientStream whose call-site-visible fields are the given ones:
+// callInfo.failFast (the RPC is NOT wait-for-ready), numRetries, firstAttempt. Returns what the
+// attempt stored (transport, pick result), whether a DelayedPickComplete was reported, a.drop
+// and the error getTransport returned (a dropError is unwrapped by getTransport itself).
+func (v *VerifPickerWrapper) GetTransport(ctx context.Context, failFast bool, numRetries int, firstAttempt bool, method string) (VerifPick, bool, error) {
+	cc := &ClientConn{pickerWrapper: v.pw}
+	cs := &clientStream{
+		cc:           cc,
+		callHdr:      &transport.CallHdr{Method: method},
+		callInfo:     &callInfo{failFast: failFast},
+		ctx:          ctx,
+		firstAttempt: firstAttempt,
+		numRetries:   numRetries,
+	}
+	sh := &verifPickStats{}
+	a := &csAttempt{ctx: ctx, cs: cs, statsHandler: sh}
+	err := a.getTransport()
+	return VerifPick{Transport: a.transport, Result: a.pickResult, Blocked: sh.delayed}, a.drop, err
 }
